@@ -340,11 +340,56 @@ impl Prop for C14 {
              "port/blockage purposes are not stored in the raw model: messages use the Pin/Obstruction numbers of the supplied Layers".into()]
     }
     fn plan(&self, tier: Tier) -> Vec<GenSpec> {
-        vec![GenSpec::random("raw-proto-raw", tier.pick(30_000, 400_000)), GenSpec::random("proto-raw-proto", tier.pick(30_000, 400_000))]
+        vec![
+            GenSpec::random("raw-proto-raw", tier.pick(30_000, 400_000)),
+            GenSpec::random("proto-raw-proto", tier.pick(30_000, 400_000)),
+            // an abstract whose port has shapes on two layers that share a layer number (met1 68/x and via 68/y, as in the crate's own layer set)
+            GenSpec::random("split-layer-abstract", tier.pick(40, 1_000)),
+        ]
     }
     fn run_case(&self, cx: &mut Cx) {
+        if cx.gen == "split-layer-abstract" {
+            use raw::{Abstract, AbstractPort, Cell, Layer, LayerPurpose, Layers, Point, Polygon, Rect};
+            cx.eval();
+            let num = cx.rng.range(1, 200) as i16;
+            let (pin_a, pin_b) = (cx.rng.range(1, 30) as i16, cx.rng.range(31, 60) as i16);
+            cx.nontrivial(((num as u64) << 16) ^ ((pin_a as u64) << 8) ^ pin_b as u64);
+            let mut layers = Layers::default();
+            let ka = layers.add(Layer::new(num, "met1").add_pairs(&[(0, LayerPurpose::Drawing), (pin_a, LayerPurpose::Pin), (61, LayerPurpose::Obstruction)]).unwrap());
+            let kb = layers.add(Layer::new(num, "via").add_pairs(&[(1, LayerPurpose::Drawing), (pin_b, LayerPurpose::Pin), (62, LayerPurpose::Obstruction)]).unwrap());
+            let mut lib = Library::new("split", raw::Units::Nano);
+            lib.layers = raw::utils::Ptr::new(layers);
+            let mut abs = Abstract::new("cellA", Polygon { points: vec![Point::new(0, 0), Point::new(100, 0), Point::new(100, 100), Point::new(0, 100)] });
+            let mut port = AbstractPort::new("p");
+            port.shapes.insert(ka, vec![Shape::Rect(Rect { p0: Point::new(1, 1), p1: Point::new(9, 9) })]);
+            port.shapes.insert(kb, vec![Shape::Rect(Rect { p0: Point::new(21, 21), p1: Point::new(29, 29) })]);
+            abs.ports.push(port);
+            lib.cells.add(Cell::from(abs));
+            let r = guard(|| -> Result<usize, String> {
+                let p = lib.to_proto().map_err(|e| format!("export: {:?}", e))?;
+                let back = Library::from_proto(p, Some(lib.layers.clone())).map_err(|e| format!("import: {:?}", e))?;
+                let c = back.cells[0].read().unwrap();
+                Ok(c.abs.as_ref().map(|a| a.ports.iter().map(|p| p.shapes.values().map(|v| v.len()).sum::<usize>()).sum()).unwrap_or(0))
+            });
+            match r {
+                Err(c) => cx.violation(&format!("split-layer-abstract|panic|{}", c.norm_msg()), json!({"panic": c.msg})),
+                Ok(Err(e)) => cx.violation("split-layer-abstract|error", json!({"error": e.chars().take(300).collect::<String>()})),
+                Ok(Ok(2)) => cx.count("split_layer_abstract_ports_preserved"),
+                Ok(Ok(n)) => cx.violation("split-layer-abstract|port-shapes-lost", json!({"layer_number": num, "pin_numbers": [pin_a, pin_b], "port_shapes_exported": 2, "port_shapes_after_the_trip": n})),
+            }
+            return;
+        }
         let mut cfg = RawCfg::proto();
         cfg.unlisted_cells = true;
+        // every third library: a technology in which distinct layers share a layer number and give the same purpose different numbers
+        // (met1 68/20 and via 68/44, as in the crate's own test layer set)
+        // Layout views only: an abstract keys its shapes by layer, and `Layers` resolves a number to ONE layer (its `add` carries a FIXME
+        // about conflicting numbers), so abstracts over such a technology are outside what the converters - and this check - can tell apart.
+        if cx.n % 3 == 1 {
+            cfg.shared_layer_numbers = true;
+            cfg.abstracts = false;
+            cx.count("libraries_with_shared_layer_numbers");
+        }
         let g = rand_raw_lib(&mut cx.rng, &cfg);
         cx.eval();
         let want = match summarize_raw(&g.lib, &g.defs) {
